@@ -45,6 +45,11 @@ def classify(c):
         return "unsupported", "no oracle/sem result"
     if o["status"] in ("unsupported",) or g["status"] in ("unsupported",):
         return "unsupported", f"goml:{o['status']}:{o['why']} go:{g['status']}:{g['why']}"
+    if g["status"] == "inconclusive" and o["status"] in ("ok", "failed") and g.get("why") == "step bound" \
+            and o.get("steps", 10 ** 9) * 100 + 5000 < c.get("go_maxsteps", 0):
+        # the source meaning ends after o.steps steps; the emitted Go is still running after more than 100 times as many
+        return "differ", {"expected_status": o["status"], "expected_why": o["why"], "go_status": "does not terminate", "go_why": f"still running after {c['go_maxsteps']} steps (the source takes {o['steps']})",
+                          "expected_out": o["out"].decode("utf-8", "replace")[:600], "go_out": g["out"].decode("utf-8", "replace")[:600]}
     if o["status"] == "inconclusive" or g["status"] == "inconclusive":
         return "inconclusive", ""
     if o["status"] == g["status"] and o["out"] == g["out"]:
@@ -58,6 +63,8 @@ def validate(cases, maxsteps=20000, name="tv", static=True):
     oracle, st1 = run_gomlsem([c["prog"] for c in cases], maxsteps=maxsteps, name=name + "-goml")
     for c in cases:
         c["oracle"] = oracle.get(c["id"])
+    for c in cases:
+        c["go_maxsteps"] = maxsteps * 3
     st2 = engine.evaluate(cases, static=static, sem=True, maxsteps=maxsteps * 3, name=name)
     return {"states": st1["states"] + st2["states"], "transitions": st1["transitions"] + st2["transitions"]}
 
